@@ -1700,7 +1700,10 @@ def sparse_shape(interp, o, depth=0):
                 return r
         return None
     if org.op == "from_dense":
-        return sparse_shape(interp, org.args[0], depth + 1) if org.args else None
+        if org.args:
+            r = sparse_shape(interp, org.args[0], depth + 1)
+            return r if r is not None else dense_shape(org.args[0])
+        return None
     if org.op == "bmat" and org.args and isinstance(org.args[0], Term) and org.args[0].op == "m.reshape":
         rs = org.args[0]
         shp = rs.args[1:]
@@ -1718,6 +1721,30 @@ def sparse_shape(interp, o, depth=0):
                     st = list(it.items) + st
         if blk is not None and len(shp) == 2 and all(isinstance(x, Num) for x in shp):
             return shp[0].p * blk[0], shp[1].p * blk[1]
+    return None
+
+
+def dense_shape(v, depth=0):
+    """(rows, cols) of a dense 2-D value built from eye / ones / zeros and scalar arithmetic, else None"""
+    if depth > 6:
+        return None
+    if isinstance(v, Grid) and v.ndim == 2:
+        return v.dim_len(0), v.dim_len(1)
+    if isinstance(v, Term):
+        if v.op in ("eye", "identity") and v.args and isinstance(v.args[0], Num):
+            n = v.args[0].p
+            m = v.args[1].p if len(v.args) > 1 and isinstance(v.args[1], Num) else n
+            return n, m
+        if v.op in ("ones", "zeros", "full", "empty") and v.args:
+            sh = _shape_arg(v.args[0])
+            if sh and len(sh) == 2:
+                return sh[0], sh[1]
+        if v.op in ("sub", "add", "mult", "div", "neg", "abs", "astype", "copy"):
+            for a in v.args:
+                if not isinstance(a, Num):
+                    r = dense_shape(a, depth + 1)
+                    if r is not None:
+                        return r
     return None
 
 
